@@ -3,8 +3,8 @@ CONSTANTS
   MaxScopes = 3
   MaxDecls = 2
   MaxRefs = 2
-  Names <- OneName
+  Names <- Specific
   Hows <- HowAll
-  DumpMod = 4
+  DumpMod = 16
 INVARIANT SiblingsDoNotShadow
 CONSTRAINT Dump
